@@ -427,13 +427,17 @@ func Execute(t *testing.T, spec RunSpec) (res RunResult) {
 		res.Nontrivial, res.Sample, res.Tape, res.Trace, res.Evals = r.Nontrivial, r.Sample, r.T.Recorded(), r.trace, r.Evals
 		return
 	}
+	bodyDone := false
 	func() {
 		defer func() {
 			if p := recover(); p != nil {
 				msg := fmt.Sprint(p)
-				if strings.Contains(msg, "blocked goroutines remain") || strings.Contains(msg, "deadlock") {
+				if (strings.Contains(msg, "blocked goroutines remain") || strings.Contains(msg, "deadlock")) && bodyDone {
 					// expected when a run leaks goroutines; leaks are reported by the oracles
 					return
+				}
+				if !bodyDone {
+					msg = "scenario body did not return (blocked on the scheduler's own goroutine?): " + msg
 				}
 				buf := make([]byte, 8192)
 				n := runtime.Stack(buf, false)
@@ -462,6 +466,7 @@ func Execute(t *testing.T, spec RunSpec) (res RunResult) {
 			r.Net = newNet(r)
 			r.chooseStrategy()
 			sc.Body(r)
+			bodyDone = true
 			r.checkPanics()
 			r.teardown()
 		})
